@@ -29,6 +29,12 @@ NATIVE_DATATYPE = {
 }
 INTS = {"integer", "long", "int", "short", "byte", "unsignedLong", "unsignedInt", "unsignedShort", "unsignedByte",
         "nonNegativeInteger", "nonPositiveInteger", "negativeInteger", "positiveInteger"}
+INF_ = float("inf")
+XSD_RANGE = {"integer": (-INF_, INF_), "long": (-2**63, 2**63 - 1), "int": (-2**31, 2**31 - 1), "short": (-2**15, 2**15 - 1), "byte": (-128, 127),
+             "unsignedLong": (0, 2**64 - 1), "unsignedInt": (0, 2**32 - 1), "unsignedShort": (0, 2**16 - 1), "unsignedByte": (0, 255),
+             "nonNegativeInteger": (0, INF_), "nonPositiveInteger": (-INF_, 0), "negativeInteger": (-INF_, -1), "positiveInteger": (1, INF_)}
+TARGET_RANGE = {"i32": (-2**31, 2**31 - 1), "isize": (-2**63, 2**63 - 1), "usize": (0, 2**64 - 1), "i64": (-2**63, 2**63 - 1),
+                "u64": (0, 2**64 - 1), "i16": (-2**15, 2**15 - 1), "u32": (0, 2**32 - 1)}
 # per target: datatypes whose lexical form must be parsed as a *narrower* Rust type first (and then widened)
 PARSE_AS = {"f64": {"float": "f32"}}
 WHITELIST = {
@@ -277,6 +283,30 @@ def run(ck, facts, tier):
                     last = provenance(fn, a)[-1]
                     if last[0] == "const" and last[1].get("kind") == "static":
                         names.add(last[1]["def"].split("::")[-1])
+        # the digits a target type can hold may lie outside the value space of an accepted datatype: then `parse::<T>` succeeds
+        # on an ill-typed literal ("-5"^^xsd:nonNegativeInteger -> Ok(-5)), unless the bounds of the datatype are tested
+        if ty in TARGET_RANGE:
+            lo, hi = TARGET_RANGE[ty]
+            loose = sorted(d for d in names if d in XSD_RANGE and not (XSD_RANGE[d][0] <= lo and hi <= XSD_RANGE[d][1]))
+            units = facts.with_closures(fn)
+            bounded = any(st_[0] == "=" and st_[2][0] == "bin" and st_[2][1] in ("Lt", "Le", "Gt", "Ge") for u in units for b_ in u.blocks for st_ in b_["s"]) \
+                or any(re.search(r"bound|range|check", (t_["f"].get("name") or "").split("::")[-1]) for u in units for _, t_ in u.calls())
+            if loose and not bounded:
+                ck.bad("R20.2", key + "#range-unchecked", "the conversion to %s accepts %s and parses the lexical form as %s without testing the bounds of "
+                       "the datatype: an ill-typed literal whose digits are outside the datatype's value space converts successfully "
+                       "(\"-5\"^^xsd:nonNegativeInteger -> Ok(-5), \"70000\"^^xsd:short -> Ok(70000), \"0\"^^xsd:positiveInteger -> Ok(0))" % (ty, loose, ty), fn.loc)
+            elif loose:
+                ck.ok("R20.2", "%s: bounds tested for %s" % (ty, loose))
+        if ty == "f64":
+            units = facts.with_closures(fn)
+            prevalid = any(re.search(r"Regex::is_match$|::all$|::any$|::bytes$|::chars$|is_ascii_digit$|::contains$|::find$", (t_["f"].get("name") or ""))
+                           for u in units for _, t_ in u.calls())
+            if not prevalid:
+                ck.bad("R20.2", key + "#lexical-space-unchecked", "the conversion to f64 hands the lexical form to Rust's float parser whatever the datatype: "
+                       "`inf`, `Infinity`, `nan`, `-NaN` (not XSD forms) convert for xsd:double / xsd:float, `NaN`, `INF` and `1e3` convert for "
+                       "xsd:decimal, and a well-typed decimal of 400 digits converts to inf", fn.loc)
+            else:
+                ck.ok("R20.2", "f64: the lexical form is examined before it is parsed")
         extra = names - allowed
         if extra:
             ck.bad("R20.2", key + "#whitelist", "%s accepts datatypes %s whose values do not embed in %s" % (ty, sorted(extra), ty), fn.loc)
